@@ -71,7 +71,12 @@ Sites ==
 
 K(k) == [k |-> k]
 SiteAlpha(kind) ==
-  IF Alpha = "small" THEN
+  IF Alpha = "plain" THEN      \* immediate failures only (no deferred values)
+    CASE kind \in {"abs"} -> { K("nil"), K("err"), [k |-> "val", rt |-> "B"] }
+      [] kind = "abslist" -> { K("nil"), [k |-> "val", rts |-> <<"B", "A">>] }
+      [] kind = "list" -> { K("nil"), K("err"), K("nilitem") }
+      [] OTHER -> { K("nil"), K("err"), K("panics") }
+  ELSE IF Alpha = "small" THEN
     CASE kind = "int"  -> { K("nil"), K("err"), K("valerr"), K("panics"), K("thunkerr"), K("wrong") }
       [] kind = "str"  -> { K("nil"), K("err") }
       [] kind = "obj"  -> { K("nil"), K("err"), K("valerr"), K("thunk") }
